@@ -423,7 +423,7 @@ func (rp *ResourcePool) scaleOutResources() (resourceWrapper, bool) {
 func (rp *ResourcePool) AddCapacityResource() (resourceWrapper, bool) {
 	verifStep("so:cap2")
 	capacity := int(rp.capacity.Get())
-	if capacity < 0 || capacity >= int(rp.maxCapacity.Get()) {
+	if capacity <= 0 || capacity >= int(rp.maxCapacity.Get()) {
 		return resourceWrapper{}, false
 	}
 	verifStep("so:add")
